@@ -43,7 +43,8 @@ def initSetup : Setup := ⟨.staticRemoteKey, true, 6, 7, 2, 0, 3000000, 0⟩
 def init : St := ⟨true, [], 0, 0, [], initSetup, ⟨1, 0, 0, 0, [], []⟩, []⟩
 
 def St.env (st : St) : BEnv :=
-  { keyBytes := fun k => (st.keyTab[k]?).getD []
+  { nKeys := 8
+    keyBytes := fun k => (st.keyTab[k]?).getD []
     keyHash160 := fun k => if k == 1 then st.h160rev else if k == 5 then st.h160pay else 0
     payHash160 := fun h => (st.payTab.lookup h).getD 0 }
 
